@@ -110,7 +110,13 @@ def strategy(tier):
     )
     # a leading marker op switches the case to sparse look-ups (see run_case)
     sparse = st.tuples(st.just("sparse"), st.tuples(st.just("lit"), st.just(b"\x00")), st.just(b""), st.just(0))
-    unit = st.one_of(*([op.map(lambda o: [o])] * 11 + [comb_fragments()]))
+    # add a neighbour of a stored key and take it away again (by delete, by an empty value or by
+    # delete_subtrie): the trie passes through intermediate nodes that older roots still use
+    last = ("last", 0, 0, None)
+    visit = st.builds(lambda a, v, how, syn: [("set", a, v, syn), (how, last, b"", 1 - syn)],
+                      st.one_of(sib, sib, st.tuples(st.just("lit"), k)), v,
+                      st.sampled_from(["del", "del", "sete", "subtrie"]), syn)
+    unit = st.one_of(*([op.map(lambda o: [o])] * 11 + [comb_fragments(), visit, visit]))
     body = st.lists(unit, min_size=3, max_size=20 if tier == "quick" else 60).map(
         lambda frags: [o for f in frags for o in f])
     return st.one_of(body, body, st.builds(lambda m, b: [m] + b, sparse, body))
@@ -164,7 +170,18 @@ def exhaustive(tier):
            iter([[("deepcomb", ("lit", b"\x00"), b"", 300)]]))
 
 
+_LAST = {"key": b"\x12"}
+
+
 def resolve_arg(spec, model):
+    k = _resolve_arg(spec, model)
+    _LAST["key"] = k
+    return k
+
+
+def _resolve_arg(spec, model):
+    if spec[0] == "last":
+        return _LAST["key"]  # the key the previous operation of this case used
     if spec[0] == "lit":
         return spec[1]
     _, i, j, ext = spec
@@ -301,6 +318,7 @@ def run_case(case):
     info = Info()
     if case and case[0][0] == "deepcomb":
         return _run_deep(case, info)
+    _LAST["key"] = b"\x12"  # no state carried over from another case
     db = HookDB()
     t = impl("construct", BinaryTrie, db)
     model = {}
